@@ -190,6 +190,12 @@ def build_hypergraph(case):
         h.add_node(n)
         nodes.add(n)
         trace.append("add_node(%r)" % (n,))
+    if recs and len(case["isolated"]) % 2:
+        # a node that already belongs to hyperedges is declared again, now WITH metadata
+        # (nothing about its hyperedges may change)
+        n = sorted(set(recs[0]), key=repr)[0]
+        h.add_node(n, metadata={"role": "hub"})
+        trace.append("add_node(%r, metadata={'role': 'hub'})" % (n,))
     return h, sorted(nodes), seen, trace
 
 
